@@ -60,13 +60,29 @@ def build(case):
     with symbolic_mode():
         q = infer(views := let(type_=View), *cexprs(base))
 
-    def block(n):
-        Add(views, Label(item=x, tag=n['tag']))
-        for k, c in n['body']:
+    def stmts(body):
+        for k, c in body:
             with (refinement if k == 'ref' else alternative)(*cexprs(c)):
                 block(c)
-    with rule_mode(q):
-        block(base)
+
+    def block(n):
+        Add(views, Label(item=x, tag=n['tag']))
+        stmts(n['body'])
+    # case['splits']: the tree is GROWN - the statements of the base block are written in several `with rule_mode(q)` blocks and
+    # the rule is evaluated in between (the way ripple-down rules are maintained)
+    cuts = [0] + list(case.get('splits') or []) + [len(base['body'])] if case.get('splits') is not None else None
+    if cuts is None:
+        with rule_mode(q):
+            block(base)
+    else:
+        with rule_mode(q):
+            Add(views, Label(item=x, tag=base['tag']))
+            stmts(base['body'][:cuts[1]])
+        for a, b in zip(cuts[1:], cuts[2:]):
+            for _ in q.evaluate():
+                pass
+            with rule_mode(q):
+                stmts(base['body'][a:b])
     return q
 
 
